@@ -2,6 +2,16 @@
    update_units_from_index_curve (las.py 554-606), as  las -> options -> text * las'.
    STRT/STOP/STEP keyword arguments are left at None ("left to lasio").  Definitions only.
 
+   The index is las.index = las.curves[0].data (`index_of`): with no curve `las.index` raises
+   IndexError.  writer.write evaluates it unguarded when index_initial is set (-> the call
+   raises: WErr) and inside update_start_stop_step's `try ... except IndexError`
+   otherwise (-> STRT/STOP/STEP are left at None, exactly as for an empty index).
+   Modelled fragment: the cells of the index column are numbers or NaN.  A text index
+   (CStr cells) makes lasio raise TypeError (`fmt % text`) whenever the refresh is needed, and
+   skip the refresh when STOP holds the very text of the last cell; neither is modelled
+   (fmt_index_cell returns the text, the STOP comparison says "different").
+   `fmt % nan` is taken to be "nan" (true of every format without width, sign or space flag).
+
    Oracles (CPython facts, supplied per case by the harness, never modelled):
      fmtv f tok      = f % float(tok)          (numeric formatting of a sample)
      fmt_diff f a b  = f % (float(a) - float(b))
@@ -35,6 +45,9 @@ Record wopts := mkwopts {
 (* an in-memory LASFile: what Read produces plus index_initial *)
 Record mlas := mkmlas { m_las : las; m_index_initial : option (list cell) }.
 
+(* a raising call.  The exception class is nominal: `write` reports every failure as
+   WErr WKeyError and the correspondence renders a raising write as "ERR" whatever the class
+   (harness/writemodel.py run_impl); the comments say which exception lasio raises. *)
 Inductive werr := WKeyError | WIndexError | WAssert | WOther.
 Inductive wres := WOk (text : list N) (m : mlas) | WErr (e : werr).
 
@@ -261,17 +274,36 @@ Definition map_section (f : hitem -> hitem) (s : section) : section := mksect (L
 
 Definition bind {A B} (o : option A) (f : A -> option B) : option B := match o with Some x => f x | None => None end.
 
-(* steps 4-5: refresh STRT/STOP/STEP values and align the units; None = KeyError/IndexError *)
+(* las.index = las.curves[0].data.  With no curve the property raises IndexError: [] here, which
+   is how update_start_stop_step sees it (its `except IndexError` treats the missing curve like
+   an empty index); the unguarded use in writer.write is the None of `need` below. *)
+Definition index_of (l : las) : list cell :=
+  match s_items (l_curves l) with [] => [] | _ :: _ => nth 0%nat (l_data l) [] end.
+
+(* STEP = fmt % (index[1] - index[0]): the oracle text for two numbers, "nan" as soon as one
+   operand is NaN (like fmt_index_cell on NaN) *)
+Definition step_text (f : list N) (c0 c1 : cell) : hval :=
+  match c0, c1 with
+  | CNum a, CNum b => VStr (fmt_diff f b a)
+  | CStr _, _ | _, CStr _ => VNone      (* text - x raises TypeError: outside the modelled fragment *)
+  | _, _ => VStr (s2l "nan")
+  end.
+
+(* steps 4-5: refresh STRT/STOP/STEP values and align the units; None = the call raises
+   (KeyError / AttributeError for a missing STRT, STOP or STEP item, IndexError for a missing
+   curve or an empty index_initial) *)
 Definition refresh_sss (f : list N) (m : mlas) : option las :=
   let l := m_las m in
-  let index := nth 0%nat (l_data l) [] in
-  let ncurves := List.length (s_items (l_curves l)) in
+  let index := index_of l in
   let well := l_well l in
   let trw := s_transforms well in
   let need :=
     match m_index_initial m with
     | None => Some true
     | Some ii =>
+        match s_items (l_curves l) with
+        | [] => None                                        (* las.index with no curve: IndexError *)
+        | _ :: _ =>
         match rev ii with
         | [] => None                                        (* index_initial[-1]: IndexError *)
         | lastc :: _ =>
@@ -287,6 +319,7 @@ Definition refresh_sss (f : list N) (m : mlas) : option las :=
                 Some (negb (cells_equal ii index) || stop_diff)
             end
         end
+        end
     end in
   bind need (fun need =>
   let set_values (w : list hitem) : option (list hitem) :=
@@ -295,9 +328,10 @@ Definition refresh_sss (f : list N) (m : mlas) : option las :=
       let stop := match rev index with c :: _ => fmt_index_cell f c | [] => VNone end in
       let step :=
         match index with
-        | CNum a :: CNum b :: _ =>
+        | c0 :: c1 :: _ =>
+            (* `if STOP != STRT` on the two texts; a single sample never gets here *)
             if match strt, stop with VStr x, VStr y => str_eqb x y | _, _ => true end then VNone
-            else VStr (fmt_diff f b a)
+            else step_text f c0 c1
         | _ => VNone
         end in
       bind (update_first trw (s2l "STRT") (fun it => set_value it strt) w) (fun w1 =>
@@ -355,7 +389,7 @@ Definition write (o : wopts) (m : mlas) : wres :=
     else vcopy in
   (* 4-5 *)
   match refresh_sss (col_fmt o 0%nat) (mkmlas l1 (m_index_initial m)) with
-  | None => WErr WKeyError
+  | None => WErr WKeyError               (* KeyError / AttributeError / IndexError, see refresh_sss *)
   | Some l2 =>
   (* 7, 9: normalise ~Well and ~Parameter values *)
   let l3 := with_params (with_well l2 (map_section (fun it => set_value it (standardize (i_value it) (i_unit it))) (l_well l2)))
